@@ -185,6 +185,7 @@ func (w *World) executor(op *Op) (failsafe.Executor[R], context.Context) {
 	ex := failsafe.NewExecutor[R](pols...)
 	done := func(l int) func(failsafe.ExecutionDoneEvent[R]) {
 		return func(ev failsafe.ExecutionDoneEvent[R]) {
+			simrt.Yield("listener")
 			e := Event{Kind: EvListener, Pos: -1, L: l, Val: ev.Result, Err: ev.Error, Ref: ev.ExecutionInfo}
 			snapInfo(&e, ev.ExecutionInfo)
 			w.log.add(e)
@@ -322,6 +323,10 @@ func (w *World) runExec(op *Op) {
 		w.results[op.ExecID] = er
 		if op.CancelSrc == SrcResultCancel {
 			w.spawnCanceller(op, opStart, func() { er.Cancel() })
+		}
+		if op.ProbeStep > 0 {
+			probe := []ReaderOp{{Kind: RdIsDone}, {Kind: RdDonePoll}, {Kind: RdIsDone}, {Kind: RdDonePoll}}
+			simrt.S.SpawnHeld(op.ExecID, op.ProbeStep, true, func() { w.runReader(op, er, 99, probe) })
 		}
 		for ri, rd := range op.Readers {
 			rd := rd
